@@ -1,4 +1,4 @@
-SPECIFICATION Spec
+SPECIFICATION SimSpec
 CONSTANTS
   Cells = {"A", "B", "C", "R0", "R1"}
   CellOrder <- MCCellOrder
